@@ -134,6 +134,22 @@ pub fn run(ctx: &Ctx) -> Report {
             acc.inc("family_cases");
         }
     }
+    // distance family: (X . (a1 . (a2 . ... (an . X)))) — a repeated node of every small serialized
+    // length at every stack distance (path lengths crossing every byte boundary)
+    let dist_max = ctx.pick(72usize, 200);
+    for xl in 0..8usize {
+        let x = if xl < 7 { atom(&vec![0x61 + xl as u8; xl + 2]) } else { cons(atom(&[1]), atom(&[2])) };
+        for n in 0..=dist_max {
+            let mut t = x.clone();
+            for i in (0..n).rev() {
+                t = cons(atom(&[0x80 | (i % 120) as u8, (i / 120) as u8 + 1, 0x55]), t);
+            }
+            let t = cons(x.clone(), t);
+            let node = Builder::new(Sharing::Fresh, Enc::Inline).build(&mut a, &t);
+            check_tree(&mut a, node, &t, &format!("distance family x={} n={n}", x.hex()), &sl[..2], &mut acc);
+            acc.inc("family_cases");
+        }
+    }
     let dmax = ctx.pick(10usize, 14);
     let mut t = atom(b"0123456789");
     for d in 1..=dmax {
